@@ -506,7 +506,19 @@ def gen_value_words(rng, ty, sub, delim, brace=True, expect=None):
             expect.append('f:' + words_src(c))        # an unexpanded argument is bound to exactly the tokens written
         return c
     if ty in ('str', 'chr'):
-        return gen_content(rng, 1 if rng.random() < 0.3 else 0, '')
+        r = rng.random()
+        if r < 0.15:
+            c = ['{'] + gen_content(rng, 1, '') + ['}']                    # exactly one brace group: `\\foo{{abc}}`, `[{htb}]`
+        elif r < 0.2:
+            c = ['{', '{'] + gen_content(rng, 0, '') + ['}', '}']
+        elif r < 0.45:
+            c = gen_content(rng, 2, '')
+        else:
+            c = gen_content(rng, 0, '')
+        if expect is not None:
+            # a string-typed argument is bound to the text written, braces dropped, ends stripped
+            expect.append('s:' + cps_of(''.join(' ' if w == 's' else chr(int(w[1:])) for w in c if w not in '{}').strip()))
+        return c
     if ty in ('int', 'number'):
         return w_text(rng.choice(['', ' ']) + gen_int_text(rng) + rng.choice(['', ' ']))
     if ty in ('float', 'double'):
@@ -825,6 +837,10 @@ def corpus():
         # D16: a str argument with a nested group
         finish_arg_case(Case('arg', '', {'sig': 'a0:str a1', 'toks': ['{', 's', 'c120', '{', 'c121', '}', 'c122', 's', '}', '{', 'c119', '}', 'c82']}, 'corpus')),
         finish_arg_case(Case('arg', '', {'sig': '[ a0:str ] a1', 'toks': ['c91', 'c120', '{', 'c121', '}', 'c93', '{', 'c122', '}', 'c82']}, 'corpus')),
+        # a str argument that is exactly one brace group: \\foo{{abc}}R, \\foo[{htb}]{x}R
+        finish_arg_case(Case('arg', '', {'sig': 'a0:str', 'toks': ['{', '{', 'c97', 'c98', 'c99', '}', '}', 'c82'], 'expect': {'0': 's:97.98.99'}}, 'corpus')),
+        finish_arg_case(Case('arg', '', {'sig': '[ a0:str ] a1', 'toks': ['c91', '{', 'c104', 'c116', 'c98', '}', 'c93', '{', 'c120', '}', 'c82'],
+                                         'expect': {'0': 's:104.116.98'}}, 'corpus')),
         Case('lit', 'I S 1 2 m1 p0 h 1.15 1 | c103', {'k': 'I'}, 'corpus'),
         # glue ends after its shrink part: `3pt minus 1pt plus two` leaves `plus two`
         Case('lit', 'G S 0 0 M S 0 0 B 3 n - U 0 - p0 112.116 0 P - N 1 109.105.110.117.115 M S 1 0 B 1 n - U 0 - p0 112.116 1 | c112 c108 c117 c115 s c116 c119 c111', {'k': 'G'}, 'corpus'),
@@ -972,9 +988,9 @@ def judge(o):
             if k >= len(vals) or vals[k].split() != want.split():
                 o.prop_ok = False
                 o.note = 'argument %d is bound to %s, the call writes %s' % (k, vals[k] if k < len(vals) else '?', want)
-        if 'object.at' in o.impl or cps_of('<plasTeX.') in o.impl:
+        if 'object.at' in o.impl or cps_of('<plasTeX.') in o.impl or cps_of(' element at 0x') in o.impl or cps_of(' object at 0x') in o.impl:
             o.prop_ok = False
-            o.note = 'a str argument is bound to the repr of a fragment object'
+            o.note = 'a str argument is bound to the repr of a node object'
 
 
 def shrink(ctx, o, evaluate):
